@@ -4,6 +4,7 @@ import (
 	"fmt"
 	"github.com/go-kid/ioc/component_definition"
 	"github.com/go-kid/ioc/container/support"
+	"github.com/go-kid/ioc/syslog"
 	"math/rand"
 	"runtime"
 	"sort"
@@ -109,9 +110,33 @@ func (p c20) utilityRace(c *core.Ctx) {
 			}
 		}(g, seed)
 	}
+	// the logger the concurrent phases report their failures through: one logger (and loggers derived from
+	// it) used by many goroutines at once, as the goroutines of a parallel Close with several failing
+	// closers do
+	lg := syslog.New(syslog.LvError).Pref("verif-race")
+	for g := 0; g < 4; g++ {
+		wg.Add(1)
+		go func(g int) {
+			defer wg.Done()
+			<-start
+			child := lg
+			if g%2 == 1 {
+				child = lg.Pref(g)
+			}
+			for i := 0; i < 12; i++ {
+				if i%2 == 0 {
+					child.Errorf("closer %d failed: attempt %d", g, i)
+				} else {
+					lg.Error("closer failed", g, i)
+				}
+				lg.Debug("not printed at this level")
+			}
+		}(g)
+	}
 	close(start)
 	wg.Wait()
 	c.Count("utility_race_histories", 1)
+	c.Count("concurrent_logger_lines", 48)
 	c.Count("utility_race_reads_checked", int(reads.Load()))
 	if torn.Load() > 0 {
 		c.Fail("", fmt.Sprintf("sync2.Map handed out %d value(s) that nobody ever stored (words of two different stores mixed), e.g. %v", torn.Load(), tornExample.Load()), map[string]any{"goroutines": nG, "ops_each": nOps, "keys": nKeys})
@@ -247,12 +272,20 @@ func (p c20) RunRace(c *core.Ctx) {
 	second := &world.FaultScanner{Nm: "verif.racescanner2", FailFor: map[string]bool{}}
 	g := &world.G{Rng: c.Rng, Sc: sc}
 	g.ShuffleOrders()
+	// further closers, most of them failing: their failures are reported (logged) by the goroutines of the
+	// parallel Close at the same moment
+	if mode == 2 {
+		for x := 0; x < 2+c.Rng.Intn(7); x++ {
+			g.AddRandomNode(world.TypesCloser, 0.1)
+		}
+		g.ShuffleOrders()
+	}
 	// closers behind gates for the shutdown phase
 	var closers []int
 	for i := range sc.Nodes {
 		if world.Palette[sc.Nodes[i].Type].Closer {
 			closers = append(closers, i)
-			if c.Rng.Intn(2) == 0 {
+			if c.Rng.Intn(3) > 0 {
 				sc.Nodes[i].Fails = append(sc.Nodes[i].Fails, "close")
 			}
 		}
